@@ -151,8 +151,8 @@ def jobs(tier, seed):
         cfgs = [JS] if tier == "quick" else [JS, CMH, JST]
         for cfg in cfgs:
             scaffold = sc
-            if tier == "quick" and name in QUICK_ONE_FREE:
-                scaffold = [p for p in sc if p != H("b")]
+            if tier == "quick" and not (name in QUICK_TWO_FREE):
+                scaffold = [("x" if p == H("b") else p) for p in sc] if name in KEEP_SECOND else [p for p in sc if p != H("b")]
             base = {"cfg": cfg, "scaffold": scaffold, "inline": inline, "sym_opts": opts, "name": name,
                     "lp_len": 1 if tier == "quick" else 2}
             if tier == "thorough":
@@ -167,6 +167,8 @@ def jobs(tier, seed):
     return jobs
 
 
+QUICK_TWO_FREE = ("code-block",)
+KEEP_SECOND = ("table-align", "table-cell", "breaks", "ref-image", "fence-info-sp", "ol-start")
 # slots whose second free character costs > 300 CPU-s (URL normalisation, entity table): one free character in quick
 QUICK_ONE_FREE = ("link-href", "link-href-angle", "image-src", "autolink", "entity", "entity-num", "ref-image", "refdef-title",
                   "link-title", "link-title-paren", "image-title", "image-alt", "strike-emph", "angle", "angle-close", "code-span", "text")
